@@ -7,7 +7,9 @@ From TT Require Import Lib.Base Gen.Handlers Model.Run Spec.Run Spec.C01 Corr.C0
 (* The model meets the whole statement for every finite program (any number of statements per
    stage, cleanups registering cleanups to any depth, any exception values incl. nested and empty
    MultipleExceptions and user subclasses, decorators, fixtures, handlers inserted before or
-   during the run for Exception-derived classes) and every result flavour. *)
+   during the run for Exception-derived classes), every result flavour, and every history of earlier
+   runs of the same instance (i_prev: any number of runs with per-run scripted stages; the observed
+   run is the last). *)
 Theorem C01_holds : forall i : input, wf i = true -> spec_okb i (model i) = true.
 Proof. exact model_meets_spec. Qed.
 Print Assumptions C01_holds.
@@ -39,6 +41,31 @@ Theorem C01_bracket : forall p a0,
                 /\ map shape (log s) = expected_log p /\ stack s = [].
 Proof. exact run_bracket. Qed.
 Print Assumptions C01_bracket.
+
+(* the same for run() on an instance in ANY state - whatever it ran before and whatever that left
+   behind (force_failure, inserted handlers, registered addOnException handlers, a stale list of caught
+   exceptions, cleanups, details): one bracket is appended, and the exceptions the run reports from
+   are exactly those THIS run caught *)
+Theorem C01_bracket_any_state : forall p s,
+  exists s' o d prop, run_from p s = (s', prop, false)
+                /\ calls (tr s') = calls (tr s) ++ [TStart; TOut o d; TStop]
+                /\ map shape (log s') = map shape (log s) ++ expected_log p /\ stack s' = []
+                /\ excs s' = collected_run p (force s).
+Proof. exact run_from_bracket. Qed.
+Print Assumptions C01_bracket_any_state.
+
+(* per run: an exception outside Exception raised in THIS run is reported as the error and comes out of
+   run(); if this run raised none, run() returns - also right after an interrupted run *)
+Theorem C01_every_run : forall p s,
+  within_Exception (rev (inserted p) ++ uh s) = true ->
+  exists s' o d prop, run_from p s = (s', prop, false)
+    /\ calls (tr s') = calls (tr s) ++ [TStart; TOut o d; TStop]
+    /\ match find (fun e => negb (derives_from_Exception e)) (raised p) with
+       | Some e => o = OErr /\ prop = Some e
+       | None => prop = None
+       end.
+Proof. exact run_from_base. Qed.
+Print Assumptions C01_every_run.
 
 (* ... and every flavour's result sees exactly that bracket *)
 Theorem C01_bracket_delivered : forall i,
@@ -111,8 +138,24 @@ Example C01_example :
               p_setup := (1, [ACleanup 10 [ACleanup 11 [ARaise (Exc CValueError None)]]]); p_up_setup := true;
               p_body := (2, [AInsertHandler CValueError OSkip; ARaise (Exc CKbd None)]);
               p_teardown := (3, [ARaise (Multi [])]); p_up_teardown := true; p_handlers := [] |} in
-  wf {| i_prog := p; i_flavour := F26 |} = true
-  /\ model {| i_prog := p; i_flavour := F26 |}
+  wf {| i_prev := []; i_prog := p; i_flavour := F26 |} = true
+  /\ model {| i_prev := []; i_prog := p; i_flavour := F26 |}
      = {| o_events := [Start; Out OErr; Stop]; o_raised := RKbd; o_ran := [1; 2; 3; 10; 11] |}
   /\ raised p = [Exc CKbd None; Multi []; Exc CValueError None].
+Proof. vm_compute. repeat split. Qed.
+
+(* non-vacuity for histories: the first run catches a ValueError (test) and a KeyboardInterrupt (cleanup)
+   and is interrupted, the second sets force_failure and inserts a handler, the third - observed - passes
+   but for the flag still set: one failure, run() returns *)
+Example C01_example_history :
+  let mk := fun su b => {| p_skip := None; p_xfail := false; p_setup := (1, su); p_up_setup := true; p_body := (2, b);
+                           p_teardown := (3, []); p_up_teardown := true; p_handlers := [] |} in
+  let p1 := mk [ACleanup 10 [ARaise (Exc CKbd None)]] [ARaise (Exc CValueError None)] in
+  let p2 := mk [] [AForce; AInsertHandler CValueError OSkip] in
+  let i := {| i_prev := [p1; p2]; i_prog := mk [ACleanup 10 []] []; i_flavour := FExtended |} in
+  wf i = true
+  /\ model {| i_prev := []; i_prog := p1; i_flavour := FExtended |}
+     = {| o_events := [Start; Out OErr; Stop]; o_raised := RKbd; o_ran := [1; 2; 3; 10] |}
+  /\ model i = {| o_events := [Start; Out OFail; Stop]; o_raised := RNone; o_ran := [1; 2; 3; 10] |}
+  /\ handlers_before i = [(CValueError, OSkip)].
 Proof. vm_compute. repeat split. Qed.
